@@ -49,9 +49,11 @@ BOUNDS = {
     "quick": {"target": "x86_64 (LP64)",
               "programs": "corpus/c01fam.py quick: every binary operator (18 + comma) x 23 operand type pairs, the 4 unary "
                           "operators x 11 integer types, 22 conversion pairs (as cast and as return conversion; 11 as "
-                          "initialisation), 12 ?: type triples, 60 sampled depth-2/3 trees (VERIF_SEED), ~210 statement "
+                          "initialisation), 12 ?: type triples, 60 sampled depth-2/3 trees (VERIF_SEED), ~235 statement "
                           "template instances (control flow, switch, compound assignment, ++/--, arrays, structs, pointers, "
-                          "globals, internal and external calls, literals, sizeof)",
+                          "globals, internal and external calls, literals, sizeof; declarations with initialisers in loop "
+                          "bodies and in for-init clauses at nesting depth 2 with outer loops running up to 3 times, for "
+                          "statements as brace-less bodies of if / else / while / do / for)",
               "symbolic": "all argument values (full range of each parameter type), initial bytes of uninitialised globals, "
                           "16 bytes behind each pointer parameter, 4 external call results (64 bit), the initial contents "
                           "of the first 96 bytes of the IR machine's stack area (indeterminate automatic storage)",
